@@ -88,6 +88,9 @@ type Exec struct {
 	needModel bool
 	initing   *ssa.Package
 	spec      int // >0 while evaluating a branch arm speculatively (if-conversion)
+	inShadow  bool
+	specFrame *frame
+	specLog   *[]storeRec
 }
 
 type targetPanic struct {
@@ -586,6 +589,9 @@ func (e *Exec) callFn(caller *frame, fn *ssa.Function, args []Value, env []Value
 	if fn == nil {
 		panic(rtPanic("invalid memory address or nil pointer dereference (nil func)"))
 	}
+	if sub, ok := e.P.Subst[fn]; ok {
+		fn = sub
+	}
 	name := fn.String()
 	if fn.Synthetic == "package initializer" && e.initing != fn.Pkg {
 		return nil // other packages are initialised lazily, on first access to one of their globals
@@ -855,7 +861,12 @@ func (e *Exec) visit(fr *frame, instr ssa.Instruction) cont {
 	case *ssa.UnOp:
 		fr.env[instr] = e.unop(fr, instr, fr.get(instr.X))
 	case *ssa.BinOp:
-		fr.env[instr] = e.binop(instr.Op, instr.X.Type(), instr.Y.Type(), fr.get(instr.X), fr.get(instr.Y))
+		x, y := fr.get(instr.X), fr.get(instr.Y)
+		r := e.binop(instr.Op, instr.X.Type(), instr.Y.Type(), x, y)
+		if e.P.Shadow {
+			e.shadowBin(instr.Op, instr.X.Type(), instr.Y.Type(), instr.Type(), x, y, r)
+		}
+		fr.env[instr] = r
 	case *ssa.Call:
 		fn, args := e.prepareCall(fr, &instr.Call)
 		fr.env[instr] = e.call(fr, fn, args)
@@ -864,7 +875,12 @@ func (e *Exec) visit(fr *frame, instr ssa.Instruction) cont {
 	case *ssa.ChangeType:
 		fr.env[instr] = fr.get(instr.X)
 	case *ssa.Convert:
-		fr.env[instr] = e.conv(instr.Type(), instr.X.Type(), fr.get(instr.X))
+		x := fr.get(instr.X)
+		r := e.conv(instr.Type(), instr.X.Type(), x)
+		if e.P.Shadow {
+			e.shadowConv(instr.Type(), instr.X.Type(), x, r)
+		}
+		fr.env[instr] = r
 	case *ssa.MultiConvert:
 		fr.env[instr] = e.conv(instr.Type(), instr.X.Type(), fr.get(instr.X))
 	case *ssa.SliceToArrayPointer:
@@ -905,11 +921,20 @@ func (e *Exec) visit(fr *frame, instr ssa.Instruction) cont {
 		if p == nil {
 			panic(rtPanic("invalid memory address or nil pointer dereference"))
 		}
+		if e.spec > 0 && fr == e.specFrame {
+			*e.specLog = append(*e.specLog, storeRec{p: p, old: *p, t: instr.Val.Type()})
+		}
 		*p = copyVal(fr.get(instr.Val))
 	case *ssa.If:
 		cv := fr.get(instr.Cond)
-		if ct, isT := cv.(*Term); isT && !ct.IsConst() && e.spec == 0 && e.pos >= len(e.prefix)*0 {
-			if e.tryIfConvert(fr, ct) {
+		if ct, isT := cv.(*Term); isT && !ct.IsConst() {
+			if e.spec == 0 {
+				if e.tryIfConvert(fr, ct) {
+					return kJump
+				}
+			} else if !e.P.NoIfConv {
+				// inside a speculative arm (a pure callee): must convert or the whole speculation is abandoned
+				e.convertInFrame(fr, ct)
 				return kJump
 			}
 		}
@@ -937,6 +962,9 @@ func (e *Exec) visit(fr *frame, instr ssa.Instruction) cont {
 			fr.env[instr] = addr
 		} else {
 			addr = fr.env[instr].(*Value)
+			if e.spec > 0 && fr == e.specFrame {
+				*e.specLog = append(*e.specLog, storeRec{p: addr, old: *addr, t: deref(instr.Type())})
+			}
 		}
 		*addr = zero(deref(instr.Type()))
 	case *ssa.MakeSlice:
